@@ -32,10 +32,10 @@ PROFILES = {
     # fill3_sample: simulated walks of LLexFill for longer contents;
     # extra_programs: programs (beyond all_sites_programs) that get seeded
     # single sites and parentheses in addition to the all-spaces layout
-    'quick': dict(ex_fuel=1, all_sites_programs=20, sampled_sites=2,
+    'quick': dict(ex_fuel=1, all_sites_programs=18, sampled_sites=2,
                   extra_programs=None,
-                  sim_num=30, sim_fuel=4, multi_num=60, multi_depth=4,
-                  fill_len=2, fill3_sample=2, hosts=3, shards=8),
+                  sim_num=24, sim_fuel=4, multi_num=48, multi_depth=4,
+                  fill_len=2, fill3_sample=None, hosts=3, shards=6),
     'thorough': dict(ex_fuel=2, all_sites_programs=260, sampled_sites=2,
                      extra_programs=6000,
                      sim_num=500, sim_fuel=5, multi_num=1500, multi_depth=6,
